@@ -86,19 +86,16 @@ def run(ctx, rep):
 
 
 def recovery_keeps_range(ctx, rep, prop):
-    """S4 (shared with C11): from_error_recovery only rewrites message / context of the converted diagnostic"""
+    """S4 (shared with C11): from_error_recovery only rewrites the message of the converted diagnostic"""
     facts = ctx.mir
-    # ---- S4 kind kept by from_error_recovery : C20 F3 shape
     import c20
-    FER = c20.FER
-    clos = facts.closures_of(FER)
-    ok = False
-    if len(clos) == 1:
-        from closures import run_closure
-        d = struct_val(facts, DIAG, "d")
-        cp, _ = run_closure(facts, clos[0], {"msg": sym_ref("msg")}, [d])
-        ok = len(cp) == 1 and isinstance(cp[0].ret, AdtVal) and lab(cp[0].ret.fields[0].val) == "d.kind" and lab(cp[0].ret.fields[1].val) == "d.range"
-    rep.check(ok, "S4", "%s|S4|recovery-keeps-kind" % prop, cfg.where(facts.fn(FER)), "from_error_recovery must keep the kind and range of the converted diagnostic")
+    tb = c20.recovery_table(facts)
+    ok = tb["ok"]
+    if ok:
+        base = tb["base"]
+        ok = all(tb["fields"].get(nm) in (("field", base, nm), join_label(base, nm)) for nm in ("kind", "range"))
+    rep.check(ok, "S4", "%s|S4|recovery-keeps-kind" % prop, cfg.where(facts.fn(c20.FER)), "from_error_recovery must keep the kind and range of the converted diagnostic (%s)" % (tb["detail"] or "kind %s, range %s" % (
+        fmt_label(tb["fields"].get("kind"))[:100], fmt_label(tb["fields"].get("range"))[:100])))
 
 
 def append_only_rule(ctx, rep, prop):
